@@ -28,6 +28,9 @@ type Profile struct {
 }
 
 var fieldNames = []string{"_", "Value", "Named", "IDs", "ID", "Name", "Status", "Val", "Cat", "Score", "Tags", "Items", "Nested", "Count", "Flag", "Data", "Id", "id", "name", "NAME", "val", "Ptr", "Extra", "Zed"}
+// foldPairs: equal under strings.EqualFold, different byte lengths (long s, Kelvin sign, capital sharp s, Angstrom sign, Ohm sign)
+var foldPairs = [][2]string{{"ſet", "SET"}, {"\u212aelvin", "kelvin"}, {"Ma\u00df", "MA\u1e9e"}, {"\u212bre", "\u00e5re"}, {"\u2126hm", "\u03c9hm"}}
+
 var nonASCIINames = []string{"Ünit", "ünit", "Kelvin", "Kelvin", "ſet", "Set"}
 
 // groupOf maps a type kind to its conversion-relation group.
@@ -161,6 +164,17 @@ func GenStructPair(t *rapid.T, pf Profile, idx int) (src, dst StructDecl) {
 			} else {
 				other = exportName(strings.ToLower(name))
 			}
+			if pf.NonASCII && rapid.IntRange(0, 3).Draw(t, "foldPair") == 0 {
+				// spellings that are equal under Unicode case folding but differ in their UTF-8 length
+				fp := rapid.SampledFrom(foldPairs).Draw(t, "foldPairV")
+				name, other = fp[0], fp[1]
+				if rapid.Bool().Draw(t, "foldSwap") {
+					name, other = other, name
+				}
+				if usedS[name] || usedD[other] {
+					continue
+				}
+			}
 			addS(mk(name, a))
 			addD(mk(other, a))
 		case k < 79: // embedded member (same or related struct on both sides)
@@ -226,12 +240,21 @@ func GenStructPair(t *rapid.T, pf Profile, idx int) (src, dst StructDecl) {
 			deepT := []TypeAtom{{"LDeep", "", "struct-local-deep"}, {"LDeep2", "", "struct-local-deep"}}
 			addS(mk(name, rapid.SampledFrom(deepT).Draw(t, "deepS")))
 			addD(mk(name, rapid.SampledFrom(deepT).Draw(t, "deepD")))
-		case k == 82: // targeted pairs (each reaches a construct that random atoms practically never combine)
+		case k == 82 || k == 83: // targeted pairs (each reaches a construct that random atoms practically never combine)
 			if needExt {
 				continue
 			}
 			at := func(home, kind string) TypeAtom { return TypeAtom{Home: home, Kind: kind} }
-			switch rapid.IntRange(0, 1).Draw(t, "targeted") {
+			switch rapid.IntRange(0, 2).Draw(t, "targeted") {
+			case 2:
+				// element conversion into a type of a package imported as "e" (under :typecast the loop reads e.Code(<element>))
+				if rapid.Bool().Draw(t, "aliasE") {
+					addS(mk(name, at("[]int", "slice-basic")))
+					addD(mk(name, at("[]e.Code", "slice-named-layout-alias-like-loop-variable")))
+				} else {
+					addS(mk(name, at("[]string", "slice-basic")))
+					addD(mk(name, at("[]e.Label", "slice-named-layout-alias-like-loop-variable")))
+				}
 			case 0:
 				// a field whose name is a string prefix of another field's name; the longer one is a struct of an
 				// imported type with unexported members, same type on both sides (copied as a whole)
@@ -256,7 +279,7 @@ func GenStructPair(t *rapid.T, pf Profile, idx int) (src, dst StructDecl) {
 				add(first)
 				add(!first)
 			}
-		case k < 83: // source only
+		case k < 84: // source only
 			addS(mk(name, a))
 		case k < 90: // destination only
 			addD(mk(name, a))
@@ -273,6 +296,7 @@ func GenStructPair(t *rapid.T, pf Profile, idx int) (src, dst StructDecl) {
 			g := Getter{Name: gname, Field: back, Type: typ, PtrRecv: rapid.IntRange(0, 3).Draw(t, "gptr") == 0}
 			if rapid.IntRange(0, 9).Draw(t, "gerr") == 0 {
 				g.RetErr = true
+				g.RetConcreteErr = rapid.IntRange(0, 3).Draw(t, "gerrConcrete") == 0
 			}
 			addS(mk(back, a))
 			usedS[gname] = true
@@ -563,7 +587,9 @@ type UserFuncs struct {
 	setup strings.Builder // declarations that live in the setup file itself (carried over into the output)
 	// ToSetup: the next declaration goes into the setup file instead of home/funcs.go
 	ToSetup bool
-	n       int
+	// one-shot knobs for the next hook (see HookN)
+	NextAsVar, NextConcreteErr bool
+	n                          int
 	// RetVars lists the package-level variables that hold the results of generated converters; the
 	// behavioural driver fills them with random values.
 	RetVars []string
@@ -597,7 +623,10 @@ func (u *UserFuncs) Hook(kind string, dstType string, dstPtr bool, srcType strin
 	return u.HookN(kind, dstType, dstPtr, srcType, srcPtr, extras, retErr, false)
 }
 
-// HookN: twoResults declares the hook as returning (int, error), which no method can accommodate.
+// HookN: twoResults declares the hook as returning (int, error), which no method can accommodate. Two one-shot
+// knobs of UserFuncs shape the next hook: NextAsVar declares it as a package-level variable of function type (the tool
+// accepts those), NextConcreteErr makes it return *tr.E, a concrete type that implements error (not the documented
+// "no result, or error": must be refused - a nil *tr.E stored in an error is not nil).
 func (u *UserFuncs) HookN(kind string, dstType string, dstPtr bool, srcType string, srcPtr bool, extras []Param, retErr, twoResults bool) string {
 	u.n++
 	name := fmt.Sprintf("%s%d", kind, u.n)
@@ -619,12 +648,21 @@ func (u *UserFuncs) HookN(kind string, dstType string, dstPtr bool, srcType stri
 	if u.ToSetup {
 		out = &u.setup
 	}
+	decl := "func " + name + "("
+	if u.NextAsVar {
+		decl = "var " + name + " = func("
+	}
+	asVar, concrete := u.NextAsVar, u.NextConcreteErr
+	u.NextAsVar, u.NextConcreteErr = false, false
+	_ = asVar
 	if twoResults {
-		fmt.Fprintf(out, "func %s(%s) (int, error) { tr.Arg(%q, %s); return 0, tr.HitE(%q) }\n\n", name, ps.String(), name, as.String(), name)
+		fmt.Fprintf(out, "%s%s) (int, error) { tr.Arg(%q, %s); return 0, tr.HitE(%q) }\n\n", decl, ps.String(), name, as.String(), name)
+	} else if concrete {
+		fmt.Fprintf(out, "%s%s) *tr.E { tr.Arg(%q, %s); tr.Hit(%q); return nil }\n\n", decl, ps.String(), name, as.String(), name)
 	} else if retErr {
-		fmt.Fprintf(out, "func %s(%s) error { tr.Arg(%q, %s); return tr.HitE(%q) }\n\n", name, ps.String(), name, as.String(), name)
+		fmt.Fprintf(out, "%s%s) error { tr.Arg(%q, %s); return tr.HitE(%q) }\n\n", decl, ps.String(), name, as.String(), name)
 	} else {
-		fmt.Fprintf(out, "func %s(%s) { tr.Arg(%q, %s); tr.Hit(%q) }\n\n", name, ps.String(), name, as.String(), name)
+		fmt.Fprintf(out, "%s%s) { tr.Arg(%q, %s); tr.Hit(%q) }\n\n", decl, ps.String(), name, as.String(), name)
 	}
 	return name
 }
@@ -823,6 +861,8 @@ func GenProg(t *rapid.T, pf Profile) *Prog {
 					_ = eff
 					uf.ToSetup = rapid.IntRange(0, 2).Draw(t, "hookInSetup") == 0
 					two := pf.ErrHeavy && rapid.IntRange(0, 7).Draw(t, "hookTwoResults") == 0 // cannot fit: must be refused
+					uf.NextAsVar = rapid.IntRange(0, 4).Draw(t, "hookAsVar") == 0
+					uf.NextConcreteErr = pf.ErrHeavy && m.RetErr && !two && rapid.IntRange(0, 11).Draw(t, "hookConcreteErr") == 0 // must be refused
 					name := uf.HookN(kind[:3], m.DstType, dptr, m.SrcType, sptr, ex, herr, two)
 					m.Notes = append(m.Notes, Notation{kind, []string{name}})
 				}
